@@ -395,43 +395,43 @@ pub fn plan_for(id: u32) -> Plan {
   use Family::*;
   match id {
     1 | 2 | 19 => Plan {
-      families: vec![(General, true, 30), (Tagged, true, 17), (AbsorbingDense, true, 22), (RepeatDense, true, 17), (ModDense, false, 14)],
-      sweep_families: vec![(General, true), (Tagged, true), (AbsorbingDense, true), (RepeatDense, true), (ModDense, false)],
+      families: vec![(General, true, 26), (Tagged, true, 14), (AbsorbingDense, true, 19), (RepeatDense, true, 14), (ModDense, false, 12), (Siblings, true, 15)],
+      sweep_families: vec![(General, true), (Tagged, true), (AbsorbingDense, true), (RepeatDense, true), (ModDense, false), (Siblings, true), (Siblings, true)],
       catalogue_filter_nonabs: false,
       needs_absorbing: false,
       needs_norepeat: false,
     },
     3 | 4 => Plan {
-      families: vec![(Tagged, false, 45), (General, false, 15), (RepeatDense, false, 15), (ModDense, false, 25)],
-      sweep_families: vec![(Tagged, false), (RepeatDense, false), (General, false), (ModDense, false), (ModDense, false)],
+      families: vec![(Tagged, false, 38), (General, false, 13), (RepeatDense, false, 13), (ModDense, false, 21), (Siblings, false, 15)],
+      sweep_families: vec![(Tagged, false), (RepeatDense, false), (General, false), (ModDense, false), (ModDense, false), (Siblings, false), (Siblings, false)],
       catalogue_filter_nonabs: true,
       needs_absorbing: false,
       needs_norepeat: false,
     },
     5 => Plan {
-      families: vec![(General, true, 25), (Tagged, false, 25), (RepeatDense, false, 17), (AbsorbingDense, true, 17), (ModDense, false, 16)],
-      sweep_families: vec![(General, false), (Tagged, false), (RepeatDense, true), (General, true), (ModDense, false)],
+      families: vec![(General, true, 22), (Tagged, false, 21), (RepeatDense, false, 14), (AbsorbingDense, true, 14), (ModDense, false, 14), (Siblings, true, 15)],
+      sweep_families: vec![(General, false), (Tagged, false), (RepeatDense, true), (General, true), (ModDense, false), (Siblings, true), (Siblings, false)],
       catalogue_filter_nonabs: false,
       needs_absorbing: false,
       needs_norepeat: false,
     },
     7 => Plan {
-      families: vec![(RepeatDense, false, 40), (RepeatDense, true, 20), (General, true, 40)],
-      sweep_families: vec![(RepeatDense, false), (RepeatDense, true), (General, true)],
+      families: vec![(RepeatDense, false, 34), (RepeatDense, true, 17), (General, true, 34), (Siblings, true, 15)],
+      sweep_families: vec![(RepeatDense, false), (RepeatDense, true), (General, true), (Siblings, true)],
       catalogue_filter_nonabs: false,
       needs_absorbing: false,
       needs_norepeat: true,
     },
     8 => Plan {
-      families: vec![(AbsorbingDense, true, 60), (General, true, 20), (Tagged, true, 20)],
-      sweep_families: vec![(AbsorbingDense, true), (AbsorbingDense, true), (Tagged, true)],
+      families: vec![(AbsorbingDense, true, 45), (General, true, 15), (Tagged, true, 15), (Siblings, true, 25)],
+      sweep_families: vec![(AbsorbingDense, true), (AbsorbingDense, true), (Tagged, true), (Siblings, true), (Siblings, true), (Siblings, true)],
       catalogue_filter_nonabs: false,
       needs_absorbing: true,
       needs_norepeat: false,
     },
     9 => Plan {
-      families: vec![(RepeatDense, false, 55), (RepeatDense, true, 25), (General, true, 20)],
-      sweep_families: vec![(RepeatDense, false), (RepeatDense, true)],
+      families: vec![(RepeatDense, false, 45), (RepeatDense, true, 20), (General, true, 15), (Siblings, true, 20)],
+      sweep_families: vec![(RepeatDense, false), (RepeatDense, true), (Siblings, true), (Siblings, true)],
       catalogue_filter_nonabs: false,
       needs_absorbing: false,
       needs_norepeat: true,
